@@ -11,6 +11,9 @@ case "$ID" in
   all|C01|C05|C06|C07|C08|C11|C13)
     ( cd harness && go build -race -tags verif -o ../bin/vcheck.race ./cmd/vcheck ) ;;
 esac
+if [ "$TIER" = thorough ]; then case "$ID" in
+  C01|C08) ( cd harness && CC=clang go build -asan -tags verif -o ../bin/vcheck.asan ./cmd/vcheck ) 2>/dev/null || echo "note: -asan build not available, asan batches will be skipped" ;;
+esac; fi
 case "$ID" in
   all|C15|C17|C18) ./harness/gen/gen.sh ;;
 esac
